@@ -54,6 +54,11 @@ Theorem C04_once_wf : forall cs l, WF cs -> plan cs = POk l ->
   (forall n, In n (flat_map drops l) <-> In n (flat_map drops cs)).
 Proof. exact plan_once_wf. Qed.
 
+(** ... and no declared foreign key is lost or duplicated: the (child, symbol, parent) triples declared
+    by the plan (inline in CREATE TABLE, by ADD / re-pointed in ALTER TABLE) are those of the input. *)
+Theorem C04_once_fks : forall cs l, plan cs = POk l -> Permutation (flat_map decl cs) (flat_map decl l).
+Proof. exact plan_once_fks. Qed.
+
 (** 3. "A table is created before any foreign key that points at it is declared, a table is
     dropped only after every foreign key pointing at it has been dropped".
 
@@ -89,26 +94,37 @@ Theorem C04_safe_except_any_tiebreak : forall cs c S,
   SortChanges S = Some (partition_changes S) /\ exists c', replay (partition_changes S) c = Some c'.
 Proof. exact safe_except. Qed.
 
+(** The exception is exact.  [repoint_ordered cs]: every ModifyForeignKey whose new parent is
+    created by the change set stands after that AddTable in the change list.  With a cycle the plan
+    replays if and only if that holds (without a cycle it always replays). *)
+Theorem C04_safe_exact : forall cs c,
+  WF cs -> consistent c cs ->
+  exists l, plan cs = POk l /\
+    ((exists c', replay l c = Some c') <-> (sortMap cs = SMCycle -> repoint_ordered cs)).
+Proof. exact plan_safe_exact. Qed.
+
 (** The plans mysql.DefaultPlan / postgres.DefaultPlan carry in Plan.Changes[i].Source: both rewrite
     a ModifyTable (re-pointed key = DROP + ADD; MySQL drops in a first ALTER, PostgreSQL puts the
     constraint drops first inside one ALTER).  Under the same hypotheses all three plans replay. *)
-Theorem C04_safe_except_dialects : forall cs c,
+Theorem C04_safe_dialects : forall cs c,
   WF cs -> consistent c cs ->
-  (sortMap cs = SMCycle -> no_repoint_to_added cs) ->
+  (sortMap cs = SMCycle -> repoint_ordered cs) ->
   exists l, plan cs = POk l /\
     (exists c1, replay l c = Some c1) /\
     (exists c2, replay (flat_map mysql_sources l) c = Some c2) /\
     (exists c3, replay (flat_map pg_sources l) c = Some c3).
-Proof. exact plan_dialect_safe_except. Qed.
+Proof. exact plan_dialect_safe. Qed.
 
 Print Assumptions C04_total.
 Print Assumptions C04_total_parts.
 Print Assumptions C04_once.
 Print Assumptions C04_once_wf.
+Print Assumptions C04_once_fks.
 Print Assumptions C04_safe_refuted.
 Print Assumptions C04_safe_except.
 Print Assumptions C04_safe_except_any_tiebreak.
-Print Assumptions C04_safe_except_dialects.
+Print Assumptions C04_safe_exact.
+Print Assumptions C04_safe_dialects.
 
 (** Non-vacuity. *)
 (* C04_total / C04_once: a 3-cycle of created tables is planned (6 changes out of 3). *)
@@ -117,6 +133,11 @@ Proof. vm_compute. split; reflexivity. Qed.
 
 Example C04_once_ex :
   plan sr_cs = POk sr_plan /\ flat_map adds sr_plan = [0] /\ flat_map drops sr_plan = [1; 2].
+Proof. vm_compute. repeat split; reflexivity. Qed.
+
+Example C04_once_fks_ex :
+  plan c3_cs = POk c3_plan /\ flat_map decl c3_cs = [(0, 21, 1); (1, 22, 2); (2, 20, 0)] /\
+  flat_map decl c3_plan = [(0, 21, 1); (1, 22, 2); (2, 20, 0)].
 Proof. vm_compute. repeat split; reflexivity. Qed.
 
 Example C04_once_wf_ex : WF sr_cs /\ plan sr_cs = POk sr_plan.
@@ -142,6 +163,21 @@ Example C04_safe_ex_chain :
   sortMap ch_cs = SMOk [2; 1; 0] /\ plan ch_cs = POk ch_plan /\
   replay ch_plan ch_cat = Some (mkCat [1; 2; 0] [(1, 22, 2); (0, 5, 1)]).
 Proof. exact (conj ch_wf (conj ch_cons (conj ch_norepoint ch_runs))). Qed.
+
+(* C04_safe_exact: the counterexample's two changes in the other order -- same cycle, re-pointed key
+   to a created table, but ordered: it replays; the counterexample itself is not ordered *)
+Example C04_safe_exact_ex :
+  WF or_cs /\ consistent cx_cat or_cs /\ sortMap or_cs = SMCycle /\ repoint_ordered or_cs /\
+  ~ no_repoint_to_added or_cs /\ plan or_cs = POk or_plan /\
+  replay or_plan cx_cat = Some (mkCat [1; 0; 2] [(0, 5, 1); (1, 21, 0)]) /\
+  sortMap cx_cs = SMCycle /\ ~ repoint_ordered cx_cs.
+Proof.
+  refine (conj or_wf (conj or_cons (conj (proj1 or_runs) (conj or_ordered (conj _ (conj (proj1 (proj2 or_runs))
+           (conj (proj2 (proj2 or_runs)) (conj _ cx_not_ordered)))))))).
+  - intros H. apply (H (des 0) _ (mkFK 5 (cur 0) (cur 2)) (mkFK 5 (des 0) (des 1)) (or_intror (or_introl eq_refl)) (or_introl eq_refl)).
+    simpl. left. reflexivity.
+  - vm_compute. reflexivity.
+Qed.
 
 (* the dialect plans of the chain example: the re-pointed key becomes DROP then ADD *)
 Example C04_safe_ex_dialects :
